@@ -54,8 +54,10 @@ Proof.
 Qed.
 Corollary C12_shipped_not_statement : ~ C12_statement shipped.
 Proof.
-  intros H. specialize (H (fun _ => None) w_prog w_input false 3 20 20).
-  unfold C12_case in H. destruct H as [[H|[ap H]] _]; try (vm_compute; discriminate); vm_compute in H; discriminate.
+  intros H. pose proof (H (fun _ => None) w_prog w_input false 3 20 20) as H1. unfold C12_case in H1.
+  assert (N1 : parse_with shipped (fun _ => None) 20 w_prog w_input (Some 3) false <> OOutOfFuel) by (vm_compute; discriminate).
+  assert (N2 : parse_with shipped (fun _ => None) 20 w_prog w_input None false <> OOutOfFuel) by (vm_compute; discriminate).
+  destruct (H1 N1 N2) as [[D|[ap D]] _]; vm_compute in D; discriminate.
 Qed.
 
 (* what does hold of the shipped code: the statement outside the two classes *)
@@ -139,12 +141,12 @@ Proof.
   split; [vm_compute; reflexivity|]. split; intros L H; cbn in H;
     repeat (destruct H as [<-|H]; [vm_compute; eauto|]); destruct H.
 Qed.
-(* the shipped model on the same sweep: limits 3..7 return Ok with 0..3 inner pairs (7 = the closing
-   refusal-free run whose counter ends at the limit) *)
+(* the shipped model on the same sweep (token counts): limits 2..5 return Ok with 0..3 inner pairs
+   instead of 4; with 6 the refused call is the one that would have failed anyway *)
 Example C12_example_shipped_sweep :
   map (fun L => match parse_with shipped (fun _ => None) 20 w_prog w_input (Some L) false with
                 | OPairs q => Some (length q) | _ => None end) [1; 2; 3; 4; 5; 6; 7; 8]
-  = [None; None; Some 4; Some 6; Some 8; Some 10; Some 10; Some 10].
+  = [None; Some 2; Some 4; Some 6; Some 8; Some 10; Some 10; Some 10].
 Proof. vm_compute. reflexivity. Qed.
 
 Print Assumptions C12_call_limit_never_silent.
